@@ -20,7 +20,8 @@ import ast
 from py2lean import Untranslatable, _dotted
 import translate as T
 
-WATCHED_SUFFIXES = ("queue.head", "queue.is_marked")
+WATCHED_SUFFIXES = ("queue.head", "queue.is_marked", "send_bytes")
+WATCHED_ATTRS = ("send_bytes",)      # properties that run handler code when read
 DROP_PREFIXES = ("_LOGGER.", "logger.", "logging.", "print")
 
 
@@ -55,7 +56,7 @@ def aw(n):
 
 
 # names that mean the same shared object whatever the local variable is called: only the suffix is kept
-CANON_SUFFIXES = ("queue.head", "queue.is_marked", "queue.pop", "queue.mark", "queue_send")
+CANON_SUFFIXES = ("queue.head", "queue.is_marked", "queue.pop", "queue.mark", "queue_send", "send_bytes")
 
 
 def canon(d):
@@ -130,6 +131,9 @@ def expr(node):
 
 def attr_reads(node, callee=False):
     """watched attribute reads inside a dotted chain (the chain of a callee is walked from its object)"""
+    if isinstance(node, ast.Attribute) and not callee and node.attr in WATCHED_ATTRS and _dotted(node) is None:
+        # a watched attribute of something that is not a plain dotted name (`send_handler[0].send_bytes`)
+        return seq(expr(node.value), act("read:" + node.attr))
     d = _dotted(node)
     evs = []
     if d is not None:
@@ -323,6 +327,8 @@ STATE_FUNCTIONS = [
     ("driver/udp_socket.py", "GeckoUdpSocket._process_send_requests"),
     ("driver/udp_socket.py", "GeckoUdpSocket.dispatch_recevied_data"),
     ("driver/udp_socket.py", "GeckoUdpSocket._cleanup_handlers"),
+    ("driver/udp_socket.py", "GeckoUdpSocket._process_received_data"),
+    ("driver/udp_socket.py", "GeckoUdpSocket._thread_func"),
 ]
 
 
